@@ -38,7 +38,7 @@ class C04(ParseProp):
     rule = ('exhaustive small texts and seeded random texts (<= 24 chars) over an alphabet with filtered-able whitespace, '
             'brackets, multi-byte/wide chars and a scanner-rejected char; plain, counting and modal scanners; 9 filter '
             'predicates; LF/CR/CRLF and several tab widths; the lexer is advanced with next() to exhaustion (+2 extra calls) '
-            'observing token, token_span, parse_span each time, with the metrics configured before and after the filter, and drained with iter_with_spans (clipped text ranges); plus histories that install another filter mid-stream after deliveries and a look-ahead, then drain, and histories that start a new parse with start_sublex / into_sublexer with and without a look-ahead buffered; '
+            'observing token, token_span, parse_span each time, with the metrics configured before and after the filter, histories peek / sub-lex mark / wider filter / deliveries, and drained with iter_with_spans (clipped text ranges); plus histories that install another filter mid-stream after deliveries and a look-ahead, then drain, and histories that start a new parse with start_sublex / into_sublexer with and without a look-ahead buffered; '
             'non-trivial = >= 3 tokens and (a filter that removes something or a rejected char); distinct by case')
     assumptions = ['scanners are the three harness scanners (every token consumes at least one character)']
 
@@ -96,6 +96,15 @@ class C04(ParseProp):
             n += 1
             out.append(parsegen.lex_case('c%d' % n, r.choice(['plain', 'counting', 'modal']), t,
                                          [['metrics', r.choice(['lf', 'crlf']), 4], ['filter', r.choice(FILTERS[1:5])]], ops))
+        # a look-ahead across filtered tokens, then a sub-lex mark, then a filter that shows the skipped tokens: the new parse
+        # starts with the first token delivered after the mark, whichever filter is then in force (the mark with a look-ahead
+        # buffered skips nothing, so the recorded C05 finding is out of play)
+        for i in range(250 if tier == 'quick' else 2500):
+            t = spangen.random_text(r, ['a', 'b', 'sp', 'sp', 'comma', 'TAB'], 4) + ['a', 'sp', 'b'] + spangen.random_text(r, ['a', 'b', 'sp', 'comma', 'LF'], 5)
+            ops = ['next'] * (1 + r.below(3)) + ['peek', r.choice(['sublex', 'intosub']), ['setfilter', r.choice(['none', ['keep', 'Ws', 'A', 'B'], ['drop', 'Comma']])]]
+            ops += ['next'] * (1 + r.below(3)) + ['drain', 'next']
+            n += 1
+            out.append(parsegen.lex_case('c%d' % n, r.choice(['plain', 'counting']), t, [['metrics', r.choice(['lf', 'crlf']), 4], ['filter', ['drop', 'Ws']]], ops))
         return out
 
     def nontrivial(self, ct, it):
